@@ -1736,7 +1736,8 @@ func (m *repoManager) hideBranch(uuid dvid.UUID, branch string) error {
 		}
 	}
 	for _, node := range r.dag.nodes {
-		var children []dvid.VersionID
+		// (an empty list, not nil: repo info must show "Children": [] as it does after a reload)
+		children := make([]dvid.VersionID, 0, len(node.children))
 		for _, cv := range node.children {
 			if _, found := del_set[cv]; !found {
 				children = append(children, cv)
